@@ -2689,3 +2689,141 @@ example :
   · simp [invertT, WFT, WFTL, OWF]
 
 end DendroModel.C04
+
+/-! # wave 2 -/
+
+namespace DendroModel.C04.Aux
+open DendroModel DendroModel.C04
+
+theorem dictSet_of_not_mem : ∀ (d : List (Int × EdgeRec)) (k : Int) (v : EdgeRec), k ∉ keys d → dictSet d k v = d ++ [(k, v)]
+  | [], k, v, _ => rfl
+  | (k', v') :: rest, k, v, h => by
+    simp only [keys, List.map_cons, List.mem_cons, not_or] at h
+    have hne : (k' == k) = false := by simpa using fun e : k' = k => h.1 e.symm
+    simp only [dictSet, hne, Bool.false_eq_true, if_false, List.cons_append]
+    rw [dictSet_of_not_mem rest k v h.2]
+
+end DendroModel.C04.Aux
+
+namespace DendroModel.C04
+open DendroModel DendroModel.C04.Aux
+
+/-! ## the iteration structure around the generated kernels is irrelevant on duplicate-free split lists -/
+
+/-- **"a later edge with an equal bipartition replaces the earlier one" never happens when no two edges share a split**: the
+    split → edge dictionary `Tree.bipartition_edge_map` is then just the edge list, keyed, in encoding order -/
+theorem edgeMap_of_nodup : ∀ es : List EdgeRec, (es.map (·.split)).Nodup → edgeMap es = es.map (fun e => (e.split, e)) := by
+  intro es
+  induction es using List.reverseRecOn with
+  | nil => intro _; rfl
+  | append_singleton init last ih =>
+    intro hn
+    rw [List.map_append, List.nodup_append] at hn
+    obtain ⟨hn1, _, hdis⟩ := hn
+    rw [edgeMap_snoc, ih hn1, dictSet_of_not_mem, List.map_append]; · rfl
+    intro hk
+    simp only [keys, List.map_map, List.mem_map, Function.comp] at hk
+    obtain ⟨e, he, hs⟩ := hk
+    exact hdis e.split (List.mem_map.mpr ⟨e, he, rfl⟩) last.split (by simp) hs
+
+/-- **the order in which the edges enter the dictionaries (post-order of the drawing, Python dict order, which pass visits a split)
+    does not matter**: for an edge list without duplicate splits, ANY permutation of it gives the same weighted RF and the same
+    squared Euclidean distance, in both argument positions, including whether they are defined — so the hand-written loops of the
+    model (`edgeMap`, `pass1`, `pass2`) compute a function of the SET of (split, length, is-root) records only -/
+theorem dist_order_irrelevant (es es' : List EdgeRec) (hp : es.Perm es') (hn : (es.map (·.split)).Nodup)
+    (m2 : List (Int × EdgeRec)) (hn2 : (keys m2).Nodup) :
+    wrf (edgeMap es) m2 = wrf (edgeMap es') m2 ∧ wrf m2 (edgeMap es) = wrf m2 (edgeMap es')
+    ∧ euclidSq (edgeMap es) m2 = euclidSq (edgeMap es') m2 ∧ euclidSq m2 (edgeMap es) = euclidSq m2 (edgeMap es') := by
+  have hl := lookup_edgeMap_perm hp hn
+  have n1 := nodup_edgeMap es
+  have n1' := nodup_edgeMap es'
+  refine ⟨wrf_congr_lookup _ _ _ n1 n1' hn2 hl, ?_, euclidSq_congr_lookup _ _ _ n1 n1' hn2 hl, ?_⟩
+  · rw [wrf_symm _ _ hn2 n1, wrf_symm _ _ hn2 n1']; exact wrf_congr_lookup _ _ _ n1 n1' hn2 hl
+  · rw [euclidSq_symm _ _ hn2 n1, euclidSq_symm _ _ hn2 n1']; exact euclidSq_congr_lookup _ _ _ n1 n1' hn2 hl
+
+/-- … and the same for the unweighted functions, with no hypothesis at all: they see the split lists as sets -/
+theorem fpfn_order_irrelevant (a a' b : List Int) (hp : a.Perm a') : fpfn a b = fpfn a' b ∧ fpfn b a = fpfn b a' :=
+  ⟨fpfn_congr a a' b b (fun _ => hp.mem_iff) (fun _ => Iff.rfl), fpfn_congr b b a a' (fun _ => Iff.rfl) (fun _ => hp.mem_iff)⟩
+
+example : ((edgeRecs (some true) exA).map (·.split)).Nodup ∧ (edgeRecs (some true) exA).Perm (edgeRecs (some true) exA).reverse :=
+  ⟨by decide, (List.reverse_perm _).symm⟩
+
+/-- `is_bipartitions_updated=True` is sound when it is true: on two tree objects whose stored encodings ARE those of their current
+    structures the flagged call returns what the default call returns -/
+theorem updated_call_on_current_encoding (a b : TreeObj) (ha : a.enc = some a.fresh) (hb : b.enc = some b.fresh) :
+    (fpfnCall true a b).1 = (fpfnCall false a b).1 ∧ (missingCall true a b).1 = (missingCall false a b).1 := by
+  constructor
+  · unfold fpfnCall; split <;> simp [TreeObj.prepare, TreeObj.encode, TreeObj.splits, ha, hb]
+  · unfold missingCall; split <;> simp [TreeObj.prepare, TreeObj.encode, TreeObj.splits, ha, hb]
+
+example : (⟨0, some true, exA, none⟩ : TreeObj).encode.enc = some (⟨0, some true, exA, none⟩ : TreeObj).encode.fresh := rfl
+
+/-- the weighted functions follow the SAME re-encoding protocol as the unweighted ones (generated tables of `_get_length_diffs`
+    and of `false_positives_and_negatives` coincide): with `is_bipartitions_updated=True` only a never-encoded tree is encoded.
+    This is what lets a weighted flagged call be replayed in the model's histories as a flagged call for its effect on the state. -/
+theorem gen_prepare_weighted (u n : Bool) :
+    C04Kernels.prepA_diffs u n = C04Kernels.prepA_fpfn u n ∧ C04Kernels.prepB_diffs u n = C04Kernels.prepB_fpfn u n := by
+  cases u <;> cases n <;> decide
+
+end DendroModel.C04
+
+namespace DendroModel.C04.Aux
+open DendroModel DendroModel.C04
+
+theorem lookup_edgeMap_mem : ∀ (es : List EdgeRec) (k : Int) (e : EdgeRec), lookup (edgeMap es) k = some e → e ∈ es ∧ e.split = k := by
+  intro es
+  induction es using List.reverseRecOn with
+  | nil => intro k e h; simp [edgeMap, lookup] at h
+  | append_singleton init last ih =>
+    intro k e h
+    rw [lookup_edgeMap_snoc] at h
+    by_cases hk : k = last.split
+    · rw [if_pos hk] at h
+      cases h
+      exact ⟨by simp, hk.symm⟩
+    · rw [if_neg hk] at h
+      obtain ⟨h1, h2⟩ := ih k e h
+      exact ⟨by simp [h1], h2⟩
+
+end DendroModel.C04.Aux
+
+namespace DendroModel.C04
+open DendroModel DendroModel.C04.Aux
+
+/-- **a refusal needs a missing length** (the clause the oracle judges refusals by): two trees none of whose non-seed edges lacks a
+    length are never refused, by either weighted function, in either argument order — and conversely a refusal exhibits a split
+    shared by the two trees whose edge, in one of them, is a non-seed edge without length -/
+theorem defined_of_no_missing_length (es1 es2 : List EdgeRec) :
+    ((∀ e ∈ es1, e.bad = false) → (∀ e ∈ es2, e.bad = false) →
+        (wrf (edgeMap es1) (edgeMap es2)).isSome ∧ (euclidSq (edgeMap es1) (edgeMap es2)).isSome)
+    ∧ (wrf (edgeMap es1) (edgeMap es2) = none →
+        ∃ k, k ∈ es1.map (·.split) ∧ k ∈ es2.map (·.split) ∧ ((∃ e ∈ es1, e.split = k ∧ e.bad = true) ∨ (∃ e ∈ es2, e.split = k ∧ e.bad = true))) := by
+  have n1 := nodup_edgeMap es1
+  have n2 := nodup_edgeMap es2
+  have key : wrf (edgeMap es1) (edgeMap es2) = none →
+      ∃ k, k ∈ es1.map (·.split) ∧ k ∈ es2.map (·.split) ∧ ((∃ e ∈ es1, e.split = k ∧ e.bad = true) ∨ (∃ e ∈ es2, e.split = k ∧ e.bad = true)) := by
+    intro h
+    obtain ⟨k, e1, e2, h1, h2, hb⟩ := ((defined_symm _ _ n1 n2).2.2).mp h
+    obtain ⟨m1, s1⟩ := lookup_edgeMap_mem es1 k e1 h1
+    obtain ⟨m2, s2⟩ := lookup_edgeMap_mem es2 k e2 h2
+    refine ⟨k, List.mem_map.mpr ⟨e1, m1, s1⟩, List.mem_map.mpr ⟨e2, m2, s2⟩, ?_⟩
+    rcases hb with hb | hb
+    · exact Or.inl ⟨e1, m1, s1, hb⟩
+    · exact Or.inr ⟨e2, m2, s2, hb⟩
+  refine ⟨?_, key⟩
+  intro hg1 hg2
+  have hw : (wrf (edgeMap es1) (edgeMap es2)).isSome := by
+    cases h : wrf (edgeMap es1) (edgeMap es2) with
+    | some w => rfl
+    | none =>
+      obtain ⟨k, _, _, hb⟩ := key h
+      rcases hb with ⟨e, he, _, hb⟩ | ⟨e, he, _, hb⟩
+      · rw [hg1 e he] at hb; cases hb
+      · rw [hg2 e he] at hb; cases hb
+  refine ⟨hw, ?_⟩
+  unfold wrf at hw; unfold euclidSq
+  cases h : lengthDiffs (edgeMap es1) (edgeMap es2) <;> simp_all
+
+example : ∀ e ∈ edgeRecs (some true) exA, e.bad = false := by decide
+
+end DendroModel.C04
